@@ -35,12 +35,16 @@ LEMMAS = [
     Lemma('lemma_cfb_buf_concat', ('C08',), 'buffered CFB: any byte split gives the same bytes and state'),
     Lemma('lemma_cfb_resume', ('C09',), 'CFB: init(export(state)) == state (hyp. E∘D = id)'),
     Lemma('lemma_cfb_public_state', ('C09',), 'CFB: exported value is the last ciphertext block (hyp. D∘E = id)'),
+    Lemma('lemma_ctr_layout_resume', ('C09', 'C04'), 'CTR: layout(layout(IV,i),j) == layout(IV,i+j): the exported counter block resumes the keystream'),
     Lemma('lemma_belt_resume', ('C09',), 'BelT-CTR: init(export(s)) == s'),
     Lemma('lemma_ofb_block_is_stream', ('C14',), 'OFB block step == XOR with the keystream-core step'),
     Lemma('lemma_cbc_cs_whole_blocks', ('C14', 'C05'), 'CBC-CS1/CS2 on k*b bytes == plain CBC; CS3 == plain CBC with the last two blocks exchanged; one block: plain'),
     Lemma('lemma_ecb_cs_whole_blocks', ('C14', 'C05'), 'ECB-CS1/CS2 on k*b bytes == raw block encryption; CS3 with the exchange'),
     Lemma('lemma_cfb_buf_block', ('C14', 'C08'), 'buffered CFB over one whole block from a block boundary == the block-level CFB step (output and next keystream)'),
     Lemma('lemma_cfb_buf_prefix', ('C14', 'C08'), 'induction behind lemma_cfb_buf_block'),
+    Lemma('lemma_cbc_cs_tail_inverts', ('C01', 'C05'), 'CBC-CSk: un-stealing the last two pieces returns the last two plaintext pieces (D∘E = id)'),
+    Lemma('lemma_ecb_cs_tail_inverts', ('C01', 'C05'), 'ECB-CSk: un-stealing the last two pieces returns the last two plaintext pieces'),
+    Lemma('lemma_xor_zero_pad', ('C05',), 'zero padding XOR algebra'),
     Lemma('chunking_unique', ('C05',), 'a message has exactly one cut into full blocks and a shorter tail'),
     Lemma('flatg_unique', ('C05',), 'uniqueness of block decomposition'),
     Lemma('flatg_cbc_dec', ('C05', 'C07'), 'chunk-wise CBC decryption == flat CBC decryption (repo-side parallel chunking)'),
